@@ -19,6 +19,7 @@ Inductive texp :=
 | TExt (inst : Z) (k : skind) (args : list texp)  (* OpExtInst GLSL.std.450 *)
 | THelper (body : texp) (args : list texp)     (* OpFunctionCall of a single-block helper whose returned value is [body] *)
 | TExtract (i : nat) (e : texp)                (* OpCompositeExtract e i *)
+| TSplat (n : nat) (e : texp)                  (* OpConstantComposite / OpCompositeConstruct of n copies of e (vector shapes) *)
 | TOpaque (why : string).                      (* something the probe could not abstract *)
 
 Fixpoint teval (env : list value) (t : texp) {struct t} : result value :=
@@ -43,7 +44,20 @@ Fixpoint teval (env : list value) (t : texp) {struct t} : result value :=
       match nth_error l i with Some x => Done x | None => ub "OpCompositeExtract: index out of bounds" end
     | _ => Fail "OpCompositeExtract of a non-composite"
     end
+  | TSplat n e => v <~ teval env e ;; Done (VVec (repeat v n))
   | TOpaque why => Fail ("template: " ++ why)
+  end.
+
+(* the catalogue holds the scalar form of a template: the vector forms naga emits differ from it only by
+   splatted constants / splatted scalar operands, which are erased before the lookup *)
+Fixpoint erase_splat (t : texp) : texp :=
+  match t with
+  | TOp o k l => TOp o k (map erase_splat l)
+  | TExt o k l => TExt o k (map erase_splat l)
+  | THelper b l => THelper (erase_splat b) (map erase_splat l)
+  | TExtract i e => TExtract i (erase_splat e)
+  | TSplat _ e => erase_splat e
+  | _ => t
   end.
 
 (* ---- structural equality ---- *)
@@ -62,15 +76,18 @@ Fixpoint texp_eqb (a b : texp) {struct a} : bool :=
   | TExt o k l, TExt o' k' l' => (o =? o') && skind_eqb k k' && list_eqb l l'
   | THelper x l, THelper y l' => texp_eqb x y && list_eqb l l'
   | TExtract i x, TExtract j y => Nat.eqb i j && texp_eqb x y
+  | TSplat i x, TSplat j y => Nat.eqb i j && texp_eqb x y
   | _, _ => false
   end.
 
 (* ---- JSON codec (tool spvrun, template mode) ----
    {"arg":i} {"c":[kind,bits]} {"cb":bool} {"op":[opc,kind,[args]]} {"ext":[inst,kind,[args]]}
-   {"helper":[body,[args]]} {"extract":[i,e]} {"opaque":why};  kind = "b" | "i" | "u" | "f" *)
+   {"helper":[body,[args]]} {"extract":[i,e]} {"splat":[n,e]} {"opaque":why};  kind = "b" | "i" | "u" | "f" *)
 Definition skind_of_string (s : string) : option skind :=
   if String.eqb s "b" then Some KBool else if String.eqb s "i" then Some KSint
   else if String.eqb s "u" then Some KUint else if String.eqb s "f" then Some KFloat else None.
+
+Definition tiny_nat (z : Z) : option nat := if (0 <=? z) && (z <? 64) then Some (Z.to_nat z) else None.
 
 Fixpoint texp_of_json (fuel : nat) (j : json) : option texp :=
   match fuel with
@@ -79,7 +96,7 @@ Fixpoint texp_of_json (fuel : nat) (j : json) : option texp :=
     let many (l : list json) := map_opt (texp_of_json f) l in
     match j with
     | JObj [(key, v)] =>
-      if String.eqb key "arg" then match v with JNum i => Some (TArg (Z.to_nat i)) | _ => None end
+      if String.eqb key "arg" then match v with JNum i => option_map TArg (tiny_nat i) | _ => None end
       else if String.eqb key "c" then
         match v with
         | JArr [JStr k; JNum b] => option_map (fun k' => TConst k' b) (skind_of_string k)
@@ -102,10 +119,340 @@ Fixpoint texp_of_json (fuel : nat) (j : json) : option texp :=
         | _ => None end
       else if String.eqb key "extract" then
         match v with
-        | JArr [JNum i; e] => option_map (TExtract (Z.to_nat i)) (texp_of_json f e)
+        | JArr [JNum i; e] => match tiny_nat i, texp_of_json f e with Some n, Some t => Some (TExtract n t) | _, _ => None end
+        | _ => None end
+      else if String.eqb key "splat" then
+        match v with
+        | JArr [JNum i; e] => match tiny_nat i, texp_of_json f e with Some n, Some t => Some (TSplat n t) | _, _ => None end
         | _ => None end
       else if String.eqb key "opaque" then match v with JStr s => Some (TOpaque s) | _ => None end
       else None
     | _ => None
     end
   end.
+
+(* ------------------------------------------------------------------ *)
+(* The catalogue.  Status of an entry (the lemma is in Spv/CatalogueProofs.v under the name given there):
+     Proved         spv_<op>_<ty>_correct : for ALL 32-bit operands the template evaluates to Done (WGSL meaning)
+     Partial        correct on the operands for which WGSL itself pins the result down (no NaN operand),
+                    outside of them the template is a failed execution "NAN: ..." (lemma ..._correct_partial)
+     Refuted        ..._refuted : exists operands for which the template is undefined or differs from WGSL
+                    (a finding); where useful also ..._correct_partial on the remaining operands
+     Uninterpreted  the instruction is recorded (so that a changed opcode breaks the tie) but the operation has
+                    no modelled meaning (transcendental functions, mix/step/smoothstep/fract)                      *)
+Inductive status := Proved | Partial | Refuted | Uninterpreted.
+Definition entry := (string * texp * status)%type.
+
+Definition t_add_i32 : texp := TOp 128 KSint [TArg 0; TArg 1].
+Definition t_sub_i32 : texp := TOp 130 KSint [TArg 0; TArg 1].
+Definition t_mul_i32 : texp := TOp 132 KSint [TArg 0; TArg 1].
+Definition t_div_i32 : texp := THelper (TOp 135 KSint [TArg 0; TOp 169 KSint [TOp 166 KBool [TOp 170 KBool [TArg 1; TConst KSint 0]; TOp 167 KBool [TOp 170 KBool [TArg 0; TConst KSint 2147483648]; TOp 170 KBool [TArg 1; TConst KSint 4294967295]]]; TConst KSint 1; TArg 1]]) [TArg 0; TArg 1].
+Definition t_mod_i32 : texp := THelper (TOp 138 KSint [TArg 0; TOp 169 KSint [TOp 166 KBool [TOp 170 KBool [TArg 1; TConst KSint 0]; TOp 167 KBool [TOp 170 KBool [TArg 0; TConst KSint 2147483648]; TOp 170 KBool [TArg 1; TConst KSint 4294967295]]]; TConst KSint 1; TArg 1]]) [TArg 0; TArg 1].
+Definition t_eq_i32 : texp := TOp 170 KBool [TArg 0; TArg 1].
+Definition t_ne_i32 : texp := TOp 171 KBool [TArg 0; TArg 1].
+Definition t_lt_i32 : texp := TOp 177 KBool [TArg 0; TArg 1].
+Definition t_le_i32 : texp := TOp 179 KBool [TArg 0; TArg 1].
+Definition t_gt_i32 : texp := TOp 173 KBool [TArg 0; TArg 1].
+Definition t_ge_i32 : texp := TOp 175 KBool [TArg 0; TArg 1].
+Definition t_add_u32 : texp := TOp 128 KUint [TArg 0; TArg 1].
+Definition t_sub_u32 : texp := TOp 130 KUint [TArg 0; TArg 1].
+Definition t_mul_u32 : texp := TOp 132 KUint [TArg 0; TArg 1].
+Definition t_div_u32 : texp := THelper (TOp 134 KUint [TArg 0; TOp 169 KUint [TOp 170 KBool [TArg 1; TConst KUint 0]; TConst KUint 1; TArg 1]]) [TArg 0; TArg 1].
+Definition t_mod_u32 : texp := THelper (TOp 137 KUint [TArg 0; TOp 169 KUint [TOp 170 KBool [TArg 1; TConst KUint 0]; TConst KUint 1; TArg 1]]) [TArg 0; TArg 1].
+Definition t_eq_u32 : texp := TOp 170 KBool [TArg 0; TArg 1].
+Definition t_ne_u32 : texp := TOp 171 KBool [TArg 0; TArg 1].
+Definition t_lt_u32 : texp := TOp 176 KBool [TArg 0; TArg 1].
+Definition t_le_u32 : texp := TOp 178 KBool [TArg 0; TArg 1].
+Definition t_gt_u32 : texp := TOp 172 KBool [TArg 0; TArg 1].
+Definition t_ge_u32 : texp := TOp 174 KBool [TArg 0; TArg 1].
+Definition t_add_f32 : texp := TOp 129 KFloat [TArg 0; TArg 1].
+Definition t_sub_f32 : texp := TOp 131 KFloat [TArg 0; TArg 1].
+Definition t_mul_f32 : texp := TOp 133 KFloat [TArg 0; TArg 1].
+Definition t_div_f32 : texp := TOp 136 KFloat [TArg 0; TArg 1].
+Definition t_mod_f32 : texp := TOp 141 KFloat [TArg 0; TArg 1].
+Definition t_eq_f32 : texp := TOp 180 KBool [TArg 0; TArg 1].
+Definition t_ne_f32 : texp := TOp 182 KBool [TArg 0; TArg 1].
+Definition t_lt_f32 : texp := TOp 184 KBool [TArg 0; TArg 1].
+Definition t_le_f32 : texp := TOp 188 KBool [TArg 0; TArg 1].
+Definition t_gt_f32 : texp := TOp 186 KBool [TArg 0; TArg 1].
+Definition t_ge_f32 : texp := TOp 190 KBool [TArg 0; TArg 1].
+Definition t_and_i32 : texp := TOp 199 KSint [TArg 0; TArg 1].
+Definition t_or_i32 : texp := TOp 197 KSint [TArg 0; TArg 1].
+Definition t_xor_i32 : texp := TOp 198 KSint [TArg 0; TArg 1].
+Definition t_shl_i32 : texp := TOp 196 KSint [TArg 0; TArg 1].
+Definition t_shr_i32 : texp := TOp 195 KSint [TArg 0; TArg 1].
+Definition t_not_i32 : texp := TOp 200 KSint [TArg 0].
+Definition t_and_u32 : texp := TOp 199 KUint [TArg 0; TArg 1].
+Definition t_or_u32 : texp := TOp 197 KUint [TArg 0; TArg 1].
+Definition t_xor_u32 : texp := TOp 198 KUint [TArg 0; TArg 1].
+Definition t_shl_u32 : texp := TOp 196 KUint [TArg 0; TArg 1].
+Definition t_shr_u32 : texp := TOp 194 KUint [TArg 0; TArg 1].
+Definition t_not_u32 : texp := TOp 200 KUint [TArg 0].
+Definition t_eq_bool : texp := TOp 164 KBool [TArg 0; TArg 1].
+Definition t_ne_bool : texp := TOp 165 KBool [TArg 0; TArg 1].
+Definition t_and_bool : texp := TOp 167 KBool [TArg 0; TArg 1].
+Definition t_or_bool : texp := TOp 166 KBool [TArg 0; TArg 1].
+Definition t_lnot_bool : texp := TOp 168 KBool [TArg 0].
+Definition t_neg_i32 : texp := TOp 126 KSint [TArg 0].
+Definition t_neg_f32 : texp := TOp 127 KFloat [TArg 0].
+Definition t_as_u32_i32 : texp := TOp 124 KUint [TArg 0].
+Definition t_as_f32_i32 : texp := TOp 111 KFloat [TArg 0].
+Definition t_as_bool_i32 : texp := TOp 171 KBool [TArg 0; TConst KSint 0].
+Definition t_as_i32_u32 : texp := TOp 124 KSint [TArg 0].
+Definition t_as_f32_u32 : texp := TOp 112 KFloat [TArg 0].
+Definition t_as_bool_u32 : texp := TOp 171 KBool [TArg 0; TConst KUint 0].
+Definition t_as_i32_f32 : texp := TOp 110 KSint [TArg 0].
+Definition t_as_u32_f32 : texp := TOp 109 KUint [TArg 0].
+Definition t_as_bool_f32 : texp := TOp 182 KBool [TArg 0; TConst KFloat 0].
+Definition t_as_i32_bool : texp := TOp 169 KSint [TArg 0; TConst KSint 1; TConst KSint 0].
+Definition t_as_u32_bool : texp := TOp 169 KUint [TArg 0; TConst KUint 1; TConst KUint 0].
+Definition t_as_f32_bool : texp := TOp 169 KFloat [TArg 0; TConst KFloat 1065353216; TConst KFloat 0].
+Definition t_bitcast_u32_i32 : texp := TOp 124 KUint [TArg 0].
+Definition t_bitcast_f32_i32 : texp := TOp 124 KFloat [TArg 0].
+Definition t_bitcast_i32_u32 : texp := TOp 124 KSint [TArg 0].
+Definition t_bitcast_f32_u32 : texp := TOp 124 KFloat [TArg 0].
+Definition t_bitcast_i32_f32 : texp := TOp 124 KSint [TArg 0].
+Definition t_bitcast_u32_f32 : texp := TOp 124 KUint [TArg 0].
+Definition t_select_i32 : texp := TOp 169 KSint [TArg 2; TArg 1; TArg 0].
+Definition t_select_u32 : texp := TOp 169 KUint [TArg 2; TArg 1; TArg 0].
+Definition t_select_f32 : texp := TOp 169 KFloat [TArg 2; TArg 1; TArg 0].
+Definition t_select_bool : texp := TOp 169 KBool [TArg 2; TArg 1; TArg 0].
+Definition t_abs_i32 : texp := TExt 5 KSint [TArg 0].
+Definition t_min_i32 : texp := TExt 39 KSint [TArg 0; TArg 1].
+Definition t_max_i32 : texp := TExt 42 KSint [TArg 0; TArg 1].
+Definition t_clamp_i32 : texp := TExt 45 KSint [TArg 0; TArg 1; TArg 2].
+Definition t_abs_u32 : texp := TExt 5 KUint [TArg 0].
+Definition t_min_u32 : texp := TExt 38 KUint [TArg 0; TArg 1].
+Definition t_max_u32 : texp := TExt 41 KUint [TArg 0; TArg 1].
+Definition t_clamp_u32 : texp := TExt 44 KUint [TArg 0; TArg 1; TArg 2].
+Definition t_abs_f32 : texp := TExt 4 KFloat [TArg 0].
+Definition t_min_f32 : texp := TExt 37 KFloat [TArg 0; TArg 1].
+Definition t_max_f32 : texp := TExt 40 KFloat [TArg 0; TArg 1].
+Definition t_clamp_f32 : texp := TExt 43 KFloat [TArg 0; TArg 1; TArg 2].
+Definition t_sign_i32 : texp := TExt 7 KSint [TArg 0].
+Definition t_sign_f32 : texp := TExt 6 KFloat [TArg 0].
+Definition t_floor_f32 : texp := TExt 8 KFloat [TArg 0].
+Definition t_ceil_f32 : texp := TExt 9 KFloat [TArg 0].
+Definition t_trunc_f32 : texp := TExt 3 KFloat [TArg 0].
+Definition t_round_f32 : texp := TExt 1 KFloat [TArg 0].
+Definition t_sqrt_f32 : texp := TExt 31 KFloat [TArg 0].
+Definition t_saturate_f32 : texp := TExt 43 KFloat [TArg 0; TConst KFloat 0; TConst KFloat 1065353216].
+Definition t_fract_f32 : texp := TExt 10 KFloat [TArg 0].
+Definition t_exp_f32 : texp := TExt 27 KFloat [TArg 0].
+Definition t_exp2_f32 : texp := TExt 29 KFloat [TArg 0].
+Definition t_log_f32 : texp := TExt 28 KFloat [TArg 0].
+Definition t_log2_f32 : texp := TExt 30 KFloat [TArg 0].
+Definition t_sin_f32 : texp := TExt 13 KFloat [TArg 0].
+Definition t_cos_f32 : texp := TExt 14 KFloat [TArg 0].
+Definition t_tan_f32 : texp := TExt 15 KFloat [TArg 0].
+Definition t_asin_f32 : texp := TExt 16 KFloat [TArg 0].
+Definition t_acos_f32 : texp := TExt 17 KFloat [TArg 0].
+Definition t_atan_f32 : texp := TExt 18 KFloat [TArg 0].
+Definition t_sinh_f32 : texp := TExt 19 KFloat [TArg 0].
+Definition t_cosh_f32 : texp := TExt 20 KFloat [TArg 0].
+Definition t_tanh_f32 : texp := TExt 21 KFloat [TArg 0].
+Definition t_asinh_f32 : texp := TExt 22 KFloat [TArg 0].
+Definition t_acosh_f32 : texp := TExt 23 KFloat [TArg 0].
+Definition t_atanh_f32 : texp := TExt 24 KFloat [TArg 0].
+Definition t_inverseSqrt_f32 : texp := TExt 32 KFloat [TArg 0].
+Definition t_radians_f32 : texp := TExt 11 KFloat [TArg 0].
+Definition t_degrees_f32 : texp := TExt 12 KFloat [TArg 0].
+Definition t_pow_f32 : texp := TExt 26 KFloat [TArg 0; TArg 1].
+Definition t_atan2_f32 : texp := TExt 25 KFloat [TArg 0; TArg 1].
+Definition t_step_f32 : texp := TExt 48 KFloat [TArg 0; TArg 1].
+Definition t_fma_f32 : texp := TExt 50 KFloat [TArg 0; TArg 1; TArg 2].
+Definition t_mix_f32 : texp := TExt 46 KFloat [TArg 0; TArg 1; TArg 2].
+Definition t_smoothstep_f32 : texp := TExt 49 KFloat [TArg 0; TArg 1; TArg 2].
+Definition t_countOneBits_i32 : texp := TOp 205 KSint [TArg 0].
+Definition t_countLeadingZeros_i32 : texp := TExt 74 KSint [TArg 0].
+Definition t_countTrailingZeros_i32 : texp := TExt 73 KSint [TArg 0].
+Definition t_reverseBits_i32 : texp := TOp 204 KSint [TArg 0].
+Definition t_firstLeadingBit_i32 : texp := TExt 74 KSint [TArg 0].
+Definition t_firstTrailingBit_i32 : texp := TExt 73 KSint [TArg 0].
+Definition t_extractBits_i32 : texp := TOp 202 KSint [TArg 0; TArg 1; TArg 2].
+Definition t_insertBits_i32 : texp := TOp 201 KSint [TArg 0; TArg 1; TArg 2; TArg 3].
+Definition t_countOneBits_u32 : texp := TOp 205 KUint [TArg 0].
+Definition t_countLeadingZeros_u32 : texp := TExt 75 KUint [TArg 0].
+Definition t_countTrailingZeros_u32 : texp := TExt 73 KUint [TArg 0].
+Definition t_reverseBits_u32 : texp := TOp 204 KUint [TArg 0].
+Definition t_firstLeadingBit_u32 : texp := TExt 75 KUint [TArg 0].
+Definition t_firstTrailingBit_u32 : texp := TExt 73 KUint [TArg 0].
+Definition t_extractBits_u32 : texp := TOp 203 KUint [TArg 0; TArg 1; TArg 2].
+Definition t_insertBits_u32 : texp := TOp 201 KUint [TArg 0; TArg 1; TArg 2; TArg 3].
+Definition t_all_bool : texp := TOp 155 KBool [TArg 0].
+Definition t_any_bool : texp := TOp 154 KBool [TArg 0].
+Definition t_dot_i32_v2 : texp := TOp 128 KSint [TOp 128 KSint [TConst KSint 0; TOp 132 KSint [TExtract 0 (TArg 0); TExtract 0 (TArg 1)]]; TOp 132 KSint [TExtract 1 (TArg 0); TExtract 1 (TArg 1)]].
+Definition t_dot_i32_v3 : texp := TOp 128 KSint [TOp 128 KSint [TOp 128 KSint [TConst KSint 0; TOp 132 KSint [TExtract 0 (TArg 0); TExtract 0 (TArg 1)]]; TOp 132 KSint [TExtract 1 (TArg 0); TExtract 1 (TArg 1)]]; TOp 132 KSint [TExtract 2 (TArg 0); TExtract 2 (TArg 1)]].
+Definition t_dot_i32_v4 : texp := TOp 128 KSint [TOp 128 KSint [TOp 128 KSint [TOp 128 KSint [TConst KSint 0; TOp 132 KSint [TExtract 0 (TArg 0); TExtract 0 (TArg 1)]]; TOp 132 KSint [TExtract 1 (TArg 0); TExtract 1 (TArg 1)]]; TOp 132 KSint [TExtract 2 (TArg 0); TExtract 2 (TArg 1)]]; TOp 132 KSint [TExtract 3 (TArg 0); TExtract 3 (TArg 1)]].
+Definition t_dot_u32_v2 : texp := TOp 128 KUint [TOp 128 KUint [TConst KUint 0; TOp 132 KUint [TExtract 0 (TArg 0); TExtract 0 (TArg 1)]]; TOp 132 KUint [TExtract 1 (TArg 0); TExtract 1 (TArg 1)]].
+Definition t_dot_u32_v3 : texp := TOp 128 KUint [TOp 128 KUint [TOp 128 KUint [TConst KUint 0; TOp 132 KUint [TExtract 0 (TArg 0); TExtract 0 (TArg 1)]]; TOp 132 KUint [TExtract 1 (TArg 0); TExtract 1 (TArg 1)]]; TOp 132 KUint [TExtract 2 (TArg 0); TExtract 2 (TArg 1)]].
+Definition t_dot_u32_v4 : texp := TOp 128 KUint [TOp 128 KUint [TOp 128 KUint [TOp 128 KUint [TConst KUint 0; TOp 132 KUint [TExtract 0 (TArg 0); TExtract 0 (TArg 1)]]; TOp 132 KUint [TExtract 1 (TArg 0); TExtract 1 (TArg 1)]]; TOp 132 KUint [TExtract 2 (TArg 0); TExtract 2 (TArg 1)]]; TOp 132 KUint [TExtract 3 (TArg 0); TExtract 3 (TArg 1)]].
+Definition t_dot_f32 : texp := TOp 148 KFloat [TArg 0; TArg 1].
+
+Definition catalogue : list entry := [
+  ("add:i32", t_add_i32, Proved);
+  ("sub:i32", t_sub_i32, Proved);
+  ("mul:i32", t_mul_i32, Proved);
+  ("div:i32", t_div_i32, Proved);
+  ("mod:i32", t_mod_i32, Proved);
+  ("eq:i32", t_eq_i32, Proved);
+  ("ne:i32", t_ne_i32, Proved);
+  ("lt:i32", t_lt_i32, Proved);
+  ("le:i32", t_le_i32, Proved);
+  ("gt:i32", t_gt_i32, Proved);
+  ("ge:i32", t_ge_i32, Proved);
+  ("add:u32", t_add_u32, Proved);
+  ("sub:u32", t_sub_u32, Proved);
+  ("mul:u32", t_mul_u32, Proved);
+  ("div:u32", t_div_u32, Proved);
+  ("mod:u32", t_mod_u32, Proved);
+  ("eq:u32", t_eq_u32, Proved);
+  ("ne:u32", t_ne_u32, Proved);
+  ("lt:u32", t_lt_u32, Proved);
+  ("le:u32", t_le_u32, Proved);
+  ("gt:u32", t_gt_u32, Proved);
+  ("ge:u32", t_ge_u32, Proved);
+  ("add:f32", t_add_f32, Proved);
+  ("sub:f32", t_sub_f32, Proved);
+  ("mul:f32", t_mul_f32, Proved);
+  ("div:f32", t_div_f32, Proved);
+  ("mod:f32", t_mod_f32, Refuted);
+  ("eq:f32", t_eq_f32, Proved);
+  ("ne:f32", t_ne_f32, Partial);
+  ("lt:f32", t_lt_f32, Proved);
+  ("le:f32", t_le_f32, Proved);
+  ("gt:f32", t_gt_f32, Proved);
+  ("ge:f32", t_ge_f32, Proved);
+  ("and:i32", t_and_i32, Proved);
+  ("or:i32", t_or_i32, Proved);
+  ("xor:i32", t_xor_i32, Proved);
+  ("shl:i32", t_shl_i32, Refuted);
+  ("shr:i32", t_shr_i32, Refuted);
+  ("not:i32", t_not_i32, Proved);
+  ("and:u32", t_and_u32, Proved);
+  ("or:u32", t_or_u32, Proved);
+  ("xor:u32", t_xor_u32, Proved);
+  ("shl:u32", t_shl_u32, Refuted);
+  ("shr:u32", t_shr_u32, Refuted);
+  ("not:u32", t_not_u32, Proved);
+  ("eq:bool", t_eq_bool, Proved);
+  ("ne:bool", t_ne_bool, Proved);
+  ("and:bool", t_and_bool, Proved);
+  ("or:bool", t_or_bool, Proved);
+  ("lnot:bool", t_lnot_bool, Proved);
+  ("neg:i32", t_neg_i32, Proved);
+  ("neg:f32", t_neg_f32, Proved);
+  ("as_u32:i32", t_as_u32_i32, Proved);
+  ("as_f32:i32", t_as_f32_i32, Proved);
+  ("as_bool:i32", t_as_bool_i32, Proved);
+  ("as_i32:u32", t_as_i32_u32, Proved);
+  ("as_f32:u32", t_as_f32_u32, Proved);
+  ("as_bool:u32", t_as_bool_u32, Proved);
+  ("as_i32:f32", t_as_i32_f32, Refuted);
+  ("as_u32:f32", t_as_u32_f32, Refuted);
+  ("as_bool:f32", t_as_bool_f32, Partial);
+  ("as_i32:bool", t_as_i32_bool, Proved);
+  ("as_u32:bool", t_as_u32_bool, Proved);
+  ("as_f32:bool", t_as_f32_bool, Proved);
+  ("bitcast_u32:i32", t_bitcast_u32_i32, Proved);
+  ("bitcast_f32:i32", t_bitcast_f32_i32, Proved);
+  ("bitcast_i32:u32", t_bitcast_i32_u32, Proved);
+  ("bitcast_f32:u32", t_bitcast_f32_u32, Proved);
+  ("bitcast_i32:f32", t_bitcast_i32_f32, Proved);
+  ("bitcast_u32:f32", t_bitcast_u32_f32, Proved);
+  ("select:i32", t_select_i32, Proved);
+  ("select:u32", t_select_u32, Proved);
+  ("select:f32", t_select_f32, Proved);
+  ("select:bool", t_select_bool, Proved);
+  ("abs:i32", t_abs_i32, Proved);
+  ("min:i32", t_min_i32, Proved);
+  ("max:i32", t_max_i32, Proved);
+  ("clamp:i32", t_clamp_i32, Refuted);
+  ("abs:u32", t_abs_u32, Refuted);
+  ("min:u32", t_min_u32, Proved);
+  ("max:u32", t_max_u32, Proved);
+  ("clamp:u32", t_clamp_u32, Refuted);
+  ("abs:f32", t_abs_f32, Proved);
+  ("min:f32", t_min_f32, Partial);
+  ("max:f32", t_max_f32, Partial);
+  ("clamp:f32", t_clamp_f32, Partial);
+  ("sign:i32", t_sign_i32, Proved);
+  ("sign:f32", t_sign_f32, Partial);
+  ("floor:f32", t_floor_f32, Proved);
+  ("ceil:f32", t_ceil_f32, Proved);
+  ("trunc:f32", t_trunc_f32, Proved);
+  ("round:f32", t_round_f32, Refuted);
+  ("sqrt:f32", t_sqrt_f32, Proved);
+  ("saturate:f32", t_saturate_f32, Partial);
+  ("fract:f32", t_fract_f32, Uninterpreted);
+  ("exp:f32", t_exp_f32, Uninterpreted);
+  ("exp2:f32", t_exp2_f32, Uninterpreted);
+  ("log:f32", t_log_f32, Uninterpreted);
+  ("log2:f32", t_log2_f32, Uninterpreted);
+  ("sin:f32", t_sin_f32, Uninterpreted);
+  ("cos:f32", t_cos_f32, Uninterpreted);
+  ("tan:f32", t_tan_f32, Uninterpreted);
+  ("asin:f32", t_asin_f32, Uninterpreted);
+  ("acos:f32", t_acos_f32, Uninterpreted);
+  ("atan:f32", t_atan_f32, Uninterpreted);
+  ("sinh:f32", t_sinh_f32, Uninterpreted);
+  ("cosh:f32", t_cosh_f32, Uninterpreted);
+  ("tanh:f32", t_tanh_f32, Uninterpreted);
+  ("asinh:f32", t_asinh_f32, Uninterpreted);
+  ("acosh:f32", t_acosh_f32, Uninterpreted);
+  ("atanh:f32", t_atanh_f32, Uninterpreted);
+  ("inverseSqrt:f32", t_inverseSqrt_f32, Uninterpreted);
+  ("radians:f32", t_radians_f32, Uninterpreted);
+  ("degrees:f32", t_degrees_f32, Uninterpreted);
+  ("pow:f32", t_pow_f32, Uninterpreted);
+  ("atan2:f32", t_atan2_f32, Uninterpreted);
+  ("step:f32", t_step_f32, Uninterpreted);
+  ("fma:f32", t_fma_f32, Proved);
+  ("mix:f32", t_mix_f32, Uninterpreted);
+  ("smoothstep:f32", t_smoothstep_f32, Uninterpreted);
+  ("countOneBits:i32", t_countOneBits_i32, Proved);
+  ("countLeadingZeros:i32", t_countLeadingZeros_i32, Refuted);
+  ("countTrailingZeros:i32", t_countTrailingZeros_i32, Refuted);
+  ("reverseBits:i32", t_reverseBits_i32, Proved);
+  ("firstLeadingBit:i32", t_firstLeadingBit_i32, Proved);
+  ("firstTrailingBit:i32", t_firstTrailingBit_i32, Proved);
+  ("extractBits:i32", t_extractBits_i32, Refuted);
+  ("insertBits:i32", t_insertBits_i32, Refuted);
+  ("countOneBits:u32", t_countOneBits_u32, Proved);
+  ("countLeadingZeros:u32", t_countLeadingZeros_u32, Refuted);
+  ("countTrailingZeros:u32", t_countTrailingZeros_u32, Refuted);
+  ("reverseBits:u32", t_reverseBits_u32, Proved);
+  ("firstLeadingBit:u32", t_firstLeadingBit_u32, Proved);
+  ("firstTrailingBit:u32", t_firstTrailingBit_u32, Proved);
+  ("extractBits:u32", t_extractBits_u32, Refuted);
+  ("insertBits:u32", t_insertBits_u32, Refuted);
+  ("all:bool", t_all_bool, Proved);
+  ("any:bool", t_any_bool, Proved);
+  ("dot:i32", t_dot_i32_v2, Proved);
+  ("dot:i32", t_dot_i32_v3, Proved);
+  ("dot:i32", t_dot_i32_v4, Proved);
+  ("dot:u32", t_dot_u32_v2, Proved);
+  ("dot:u32", t_dot_u32_v3, Proved);
+  ("dot:u32", t_dot_u32_v4, Proved);
+  ("dot:f32", t_dot_f32, Proved)
+].
+
+Definition status_eqb (a b : status) : bool :=
+  match a, b with Proved, Proved | Partial, Partial | Refuted, Refuted | Uninterpreted, Uninterpreted => true | _, _ => false end.
+
+(* is template t one of the catalogue's templates for key k? with which status? *)
+Fixpoint find_entry (k : string) (t : texp) (l : list entry) : option status :=
+  match l with
+  | [] => None
+  | (k', t', s) :: r => if String.eqb k k' && texp_eqb (erase_splat t) t' then Some s else find_entry k t r
+  end.
+
+(* a probed table row: (key, shape, template) *)
+Definition probe_row := (string * Z * texp)%type.
+Definition row_known (r : probe_row) : bool :=
+  match r with (k, _, t) => match find_entry k t catalogue with Some _ => true | None => false end end.
+Definition missing_rows (table : list probe_row) : list (string * Z) :=
+  map (fun r => match r with (k, n, _) => (k, n) end) (filter (fun r => negb (row_known r)) table).
+Definition rows_with_status (s : status) (table : list probe_row) : list (string * Z) :=
+  map (fun r => match r with (k, n, _) => (k, n) end)
+      (filter (fun r => match r with (k, _, t) => match find_entry k t catalogue with Some s' => status_eqb s s' | None => false end end) table).
